@@ -160,7 +160,7 @@ func TestProp(t *testing.T) {
 	rep.Assume("the fake authenticator answers exactly as scripted; 429/503 answers are excluded here (C05)")
 	rep.Assume("group membership for requests with no check due is 'as of the last check' (the harness only mints cookies the proxy itself could have issued w.r.t. groups)")
 
-	nConfigs := env.Pick(3, 40)
+	nConfigs := env.Pick(3, 24)
 	perConfig := env.Pick(2700, 6250)
 	only, skipAll := env.Only("c01")
 	if skipAll {
